@@ -30,6 +30,10 @@ def _ret_variant(r):
 def poll_rules(ctx, which):
     """Obligations on one BroadcastFuture::poll (which in POLLS)."""
     P = ctx.prog
+    from . import inventory, mustpass
+    inventory.check_awaits(ctx, ["nexosim/src/ports/%s/broadcaster.rs" % which, "nexosim/src/ports/%s.rs" % which])
+    inventory.check(ctx, ["task-set-take"])
+    mustpass.check(ctx, ["%s-broadcast-polls" % which])
     b = P.body(POLLS[which])
     if b is None:
         return ctx.missing(POLLS[which])
